@@ -10,5 +10,6 @@ func TestVerifReplay(t *testing.T) {
 	verifsym.RunReplay(t, map[string]any{
 		"Verif_C08_SumRoundTrip": Verif_C08_SumRoundTrip,
 		"Verif_C08_LoadCorrupt":  Verif_C08_LoadCorrupt,
+		"Verif_C08_SumMany":      Verif_C08_SumMany,
 	})
 }
